@@ -195,6 +195,56 @@ func (r *c33Runner) Step(t []string, o *Oracle) string {
 			rs = strings.Join(ss, ",")
 		}
 		return res + " " + rs
+	case "cput":
+		p := r.curPool()
+		if len(t) != 3 || p == nil {
+			return "bad-op"
+		}
+		h, ok1 := u(t[1], 64)
+		g, ok2 := u(t[2], 8)
+		if !ok1 || !ok2 || g == 0 || g > 64 {
+			return "bad-op"
+		}
+		had := network.VerifC33PoolContains(p, h)
+		n := network.VerifC33ConcurrentPut(p, h, int(g))
+		o.Count("cput")
+		want := 1
+		if had {
+			want = 0
+		}
+		o.Check(n <= want, "c33-concurrent-put-accepts-twice", "%d concurrent Put of hash %d: %d callers told new (expected %d)", g, h, n, want)
+		o.Check(n >= want, "c33-concurrent-put-accepts-none", "%d concurrent Put of new hash %d: nobody told new", g, h)
+		for i := 0; i < n; i++ {
+			r.accept(h, o, "put")
+		}
+		return fmt.Sprintf("accepted %d", n)
+	case "conc":
+		if len(t) != 4 || (r.node == nil && r.rnode == nil) {
+			return "bad-op"
+		}
+		g, o1 := u(t[1], 8)
+		src, o2 := u(t[2], 16)
+		h, o3 := u(t[3], 64)
+		if !o1 || !o2 || !o3 || g == 0 || g > 64 || src == 0 || h == 0 {
+			return "bad-op"
+		}
+		nd := r.node
+		if r.rnode != nil {
+			nd = r.rnode.VerifC33Node
+		}
+		had := network.VerifC33PoolContains(nd.Pool(), h)
+		n := nd.OnPacketConcurrent(int(g), c33ID(src), h)
+		o.Count("conc")
+		want := 1
+		if had {
+			want = 0
+		}
+		o.Check(n <= want, "c33-concurrent-put-accepts-twice", "same flooded packet (hash %d) from %d peers at once: application callback fired %d times (expected %d)", h, g, n, want)
+		o.Check(n >= want, "c33-concurrent-delivery-lost", "same flooded packet (hash %d) from %d peers at once: never delivered", h, g)
+		for i := 0; i < n; i++ {
+			r.accept(h, o, "flood")
+		}
+		return fmt.Sprintf("delivered %d", n)
 	case "cpkt":
 		if len(t) != 4 || (r.node == nil && r.rnode == nil) {
 			return "bad-op"
@@ -475,8 +525,44 @@ func c33GenRelay(g *Gen) {
 	g.Emit("state")
 }
 
+// concurrent stress: rounds of the same packet offered by 8 goroutines at once,
+// to the pool directly and through onPacket (schedule sampling)
+func c33GenConc(g *Gen) {
+	nb := g.Pick(3, 4, 20)
+	bl := g.Pick(2, 5, 500)
+	rounds := 100
+	if g.Tier == "thorough" {
+		rounds = 300
+	}
+	if g.Intn(2) == 0 {
+		g.Emit("new %d %d", nb, bl)
+		for i := 0; i < rounds; i++ {
+			h := uint64(5000 + i)
+			if g.Intn(6) == 0 && i > 0 {
+				h = uint64(5000 + i - 1) // already present: nobody may be told "new"
+			}
+			g.Emit("cput %d %d", h, g.Pick(8, 8, 8, 2, 16))
+		}
+	} else {
+		g.Emit("node %d %d", nb, bl)
+		for i := 0; i < rounds; i++ {
+			h := uint64(7000 + i)
+			if g.Intn(6) == 0 && i > 0 {
+				h = uint64(7000 + i - 1)
+			}
+			g.Emit("conc %d %d %d", g.Pick(8, 8, 8, 2, 16), 60+g.Intn(3), h)
+		}
+	}
+	g.Emit("state")
+}
+
 func c33Gen(g *Gen) {
 	for c := 0; c < g.N; c++ {
+		if g.Intn(8) == 0 {
+			c33GenConc(g)
+			g.Emit("reset")
+			continue
+		}
 		switch g.Intn(5) {
 		case 0, 1:
 			c33GenPool(g)
